@@ -296,6 +296,34 @@ func (w *vr2World) write(rev *crhp2.ContractRevision, acts []vr2Act, expectRefus
 	return true
 }
 
+// sectorRoots sends RPCSectorRoots, which revises the contract (payment) without touching
+// its list: the host opens an updater and commits it with no actions.
+func (w *vr2World) sectorRoots(rev *crhp2.ContractRevision, expectRefusal bool) bool {
+	id := rev.ID()
+	served := w.node.Contracts.SectorRoots(id)
+	_, err := rpc2.RPCSectorRoots(w.tr, w.renterKey, 0, uint64(len(served)), rev, types.Siacoins(1).Div64(5))
+	w.em.Count(fmt.Sprintf("rpc:sector-roots:ok=%v:on-renewed=%v", err == nil, w.supers[id]))
+	if err != nil {
+		if !expectRefusal {
+			w.em.Monitor("live-contract-refuses-revision", fmt.Sprintf("contract %d: %v", w.cN(id), err))
+		}
+		w.sessionDied()
+		w.look(id)
+		return false
+	}
+	w.accepted++
+	if w.supers[id] {
+		w.em.Monitor("rhp2-session-revises-renewed-predecessor", fmt.Sprintf("RPCSectorRoots accepted on contract %d after it was renewed in the same session", w.cN(id)))
+	}
+	u := w.slot
+	w.slot++
+	w.em.Step(fmt.Sprintf("Open1 %d %d", u, w.cN(id)), "ORes (Ok tt)")
+	w.em.Step(fmt.Sprintf("Commit1 %d %d %d %d None", u, rev.Revision.RevisionNumber, rev.Revision.Filesize, w.hN(rev.Revision.FileMerkleRoot)), "ORes (Ok tt)")
+	w.em.Step(fmt.Sprintf("Close1 %d", u), "ORes (Ok tt)")
+	w.look(id)
+	return true
+}
+
 // stale lists the manager still serves for renewed contracts (model: the cache entry stays)
 func (w *vr2World) staleOf(id types.FileContractID) []types.Hash256 { return w.stale[id] }
 
@@ -456,6 +484,11 @@ func TestVerifC13RHP2(t *testing.T) {
 			if w.held == (types.FileContractID{}) {
 				break
 			}
+			if rng.Intn(3) == 0 {
+				if !w.sectorRoots(&rev, false) {
+					break
+				}
+			}
 			stale := vr2Copy(rev) // what the renter (and the host session) held before the renewal
 			renewal, ok := w.renew(rev, false)
 			if !ok {
@@ -479,6 +512,7 @@ func TestVerifC13RHP2(t *testing.T) {
 					w.write(&stale, w.genActs(0), true)
 				}
 			default:
+				w.sectorRoots(&stale, true)
 			}
 			if w.held != (types.FileContractID{}) {
 				w.unlock()
